@@ -279,7 +279,16 @@ def relEval (prop : String) (params : List String) (src : Str) (outs : List Stri
     else if plain == conv then [] else ["convertpos-changes-error"]
   | "C17strict", [], [strict, lax] =>
     if strict == lax then []
-    else if strict.startsWith "EXN PE|\"here-document at line" then []
+    else if strict.startsWith "EXN PE|\"here-document at line" then
+      -- "only for inputs that END inside a missing here-document": the error is the top-level parser's
+      -- (its source is the input or its rest, possibly with the appended newline) and sits at its end
+      match parsePE strict with
+      | some (_, esrc, pos) =>
+        -- (for a later top-level command the source is the rest of the input: finding D15)
+        if (esrc.isSuffixOf src || (esrc.getLast? == some '\n' && esrc.dropLast.isSuffixOf src)) &&
+           pos + 1 ≥ (esrc.length : Int) then []
+        else ["strictmode-changes-outcome-of-nested-here-document"]
+      | none => ["strictmode-changes-other-outcome"]
     else ["strictmode-changes-other-outcome"]
   | "C17proceed", [], [plain, proc] =>
     if plain == proc then []
